@@ -607,6 +607,45 @@ example :
      (Pywbem.Model.LogConfig.configure {} (connWith [] false) .all .stderr (.str Pywbem.Model.LogConfig.sPaths) true
         .conn false).events.length = 1) := by decide +kernel
 
+/-! ### WBEMConnection.copy() and the Statistics context manager -/
+
+/-- copy() of a connection — whatever logging configuration is active, whatever recorders the original has — yields a
+    connection on which every history of operations has the outcomes it has on the original -/
+theorem C19_copy_same_outcomes (g : Pywbem.Model.LogConfig.Global) (c : Conn) (b64 : Str → Str)
+    (calls : List (Call × Core)) (hs : ∀ q ∈ calls, Sane q.1 q.2) (hsrv : srvOk c.lastSrvTime) :
+    runOps Variant.fixed (Pywbem.Model.LogConfig.copyConn g c).1 b64 calls = runOps Variant.fixed c b64 calls := by
+  obtain ⟨hi, hl⟩ := Proofs.Lemmas.LogConfig.copyConn_fields g c
+  rw [C19_history_outcomes_are_core_outcomes b64 calls _ hs (by rw [hl]; trivial),
+    C19_history_outcomes_are_core_outcomes b64 calls c hs hsrv, hi]
+
+/-- the defect repaired by fix 261a08e: with logging activated for future connections, __init__ has already added a log
+    recorder, and adding the copy of the original's log recorder was refused with ValueError -/
+theorem C19_copy_failed_before_fix (g : Pywbem.Model.LogConfig.Global) (info : ConnInfo) (st : Bool) (l : LogRec)
+    (h : g.activate = true) :
+    raisedName ((Pywbem.Model.LogConfig.newConn g info st).1.addRecorderChecked (.log l)) = some "ValueError" := by
+  apply C19_add_recorder_same_class_refused
+  obtain ⟨l0, hl0, _⟩ := (Proofs.Lemmas.LogConfig.newConn_recorders g info st).2 h
+  rw [hl0]
+  rfl
+
+/-- `with statistics(name):` — __exit__ never returns a true value: an exception raised inside the block always
+    reaches the caller, with statistics enabled or disabled (what the mock's compile_mof_*/add_cimobjects rely on) -/
+theorem C19_statistics_context_manager_never_swallows (r : Pywbem.Model.Statistics.Run) (now : Int) :
+    (Pywbem.Model.Statistics.step r (.exit now)).2 = .indexError ∨
+    ∃ res, (Pywbem.Model.Statistics.step r (.exit now)).2 = .exited false res :=
+  Proofs.Lemmas.Statistics.exit_never_suppresses r now
+
+/-- a with-block entered and left with statistics enabled is counted exactly once under its name (never as an
+    exception: __exit__ calls stop_timer() without arguments), elapsed time = clock difference -/
+theorem C19_statistics_with_block_counts_once (s : Pywbem.Model.Statistics.Stats) (n : List Char) (t1 t2 : Int)
+    (he : s.enabled = true) :
+    (Pywbem.Model.Statistics.exitCm (s.startTimer n t1).1 (s.startTimer n t1).2 t2).2.2 = .dt (t2 - t1) ∧
+    (Proofs.Lemmas.Statistics.get (Pywbem.Model.Statistics.exitCm (s.startTimer n t1).1 (s.startTimer n t1).2 t2).1
+      n).count = (Proofs.Lemmas.Statistics.get s n).count + 1 ∧
+    (Proofs.Lemmas.Statistics.get (Pywbem.Model.Statistics.exitCm (s.startTimer n t1).1 (s.startTimer n t1).2 t2).1
+      n).excCount = (Proofs.Lemmas.Statistics.get s n).excCount :=
+  Proofs.Lemmas.Statistics.enter_exit_pair s n t1 t2 he
+
 /-! ### the password -/
 
 /-- str()/repr() of the connection and the 'Connection:' log record do not depend on the password when the
